@@ -136,6 +136,28 @@ def git_fault_histories(ctx):
     return hs
 
 
+def queue_job_histories(ctx):
+    """Scripted family: a pull request waits in the queue, then a queue admin job (delete / rebuild queues) runs while
+    a colleague creates a branch whose name merely looks like one of the robot's namespaces, right before the job's
+    push."""
+    names = ['qa/nightly', 'quarantine/flaky', 'q-experiments', 'wip/refactor', 'w-notes', 'tmpfiles/x', 'queue/old',
+             'qw/1', 'other/unrelated']
+    layout = [[4, 3, None, []], [5, 1, None, []]]
+    hs = []
+    for kind in ('delete_queues', 'rebuild_queues'):
+        for i, name in enumerate(names if not ctx.quick else names[:6]):
+            cfg = {'layout': layout, 'use_queue': True, 'skip_queue': False, 'no_octopus': False, 'peers': 0,
+                   'leaders': 0, 'need_author': False, 'build_key': '', 'always_prs': True, 'always_branches': True,
+                   'cmd_line_options': []}
+            hs.append({'cfg': cfg, 'family': 'queue_job_third_party', 'events': [
+                {'e': 'create_pr', 'src': 'bugfix/TEST-1', 'dst': 'development/4.3', 'label': 'c1'},
+                {'e': 'job_pr', 'pr': 1},
+                {'e': 'job_api', 'kind': kind,
+                 'fault': {'mode': 'third_party', 'push_index': i % 2 if kind == 'rebuild_queues' else 0,
+                           'branch': name}}]})
+    return hs
+
+
 def run(ctx):
     n = 64 if ctx.quick else 1000
     seeds = [ctx.seed * 100000 + i for i in range(n)]
@@ -155,6 +177,11 @@ def run(ctx):
                  'while one of its git commands fails once (every position of the clone sequence)' % len(hs))
     sysrun.run(ctx, [], 0, MONITORS, replay_history=hs)
     ctx.count('git_fault_histories', len(hs))
+    hq = queue_job_histories(ctx)
+    ctx.rule += ('; plus %d scripted histories in which a queue admin job runs while a third party creates a branch '
+                 'whose name looks like a robot namespace right before its push' % len(hq))
+    sysrun.run(ctx, [], 0, MONITORS, replay_history=hq)
+    ctx.count('queue_job_third_party_histories', len(hq))
     ctx.notes.append('third-party injections are counted in input_distribution under status:* of the same jobs')
 
 
